@@ -185,8 +185,8 @@ def propagate(
         res = [result[j][i] for j in range(len(result))]
 
         # create the result
-        ql = int(kwargs.get('q', 10) / 2)
-        qu = 100 - int(kwargs.get('q', 10) / 2)
+        ql = kwargs.get('q', 10) / 2
+        qu = 100 - kwargs.get('q', 10) / 2
         conf_intervals.append(
             np.column_stack((
                 np.percentile(res, ql, axis=0),
